@@ -31,18 +31,36 @@ type mcase struct {
 func mutantCases(c *Check, pool *sup.Pool, nProg, nMut int, salt int, families []string, opt func(i int) *gen.Opt) []*mcase {
 	cases := genCases(c, nProg, salt, opt)
 	var ms []*mcase
+	r := rand.New(rand.NewSource(subSeed(c.Seed, salt*7777)))
+	// two fifths of the texts are written with head mode annotations left out wherever mode
+	// inference recovers them (same program, modes come from the definitions)
+	bared := 0
+	write := func(p *vast.Program) string {
+		if p == nil || r.Intn(5) >= 2 {
+			if p == nil {
+				return ""
+			}
+			return p.Text()
+		}
+		q, n := vast.BareHeads(p, r, 60)
+		bared += n
+		return q.Text()
+	}
 	for _, pc := range cases {
 		ms = append(ms, &mcase{base: pc, text: pc.Text, v: typing.Verdict{Kind: typing.Accept}, family: "none", op: "unmutated"})
+		if t := write(pc.P); t != pc.Text {
+			ms = append(ms, &mcase{base: pc, text: t, v: typing.Verdict{Kind: typing.Accept}, family: "none", op: "unmutated-heads-omitted"})
+		}
 	}
-	r := rand.New(rand.NewSource(subSeed(c.Seed, salt*7777)))
 	for i := 0; i < nMut; i++ {
 		pc := cases[i%len(cases)]
 		m := mut.Mutate(pc.P, r, families...)
 		if m == nil {
 			continue
 		}
-		ms = append(ms, &mcase{base: pc, m: m, text: m.P.Text(), v: typing.Check(m.P), family: m.Family, op: m.Op})
+		ms = append(ms, &mcase{base: pc, m: m, text: write(m.P), v: typing.Check(m.P), family: m.Family, op: m.Op})
 	}
+	c.Extra["head_mode_annotations_omitted"] = bared
 	jobs := make([]sup.Job, len(ms))
 	for i, m := range ms {
 		jobs[i] = sup.Job{Kind: "typecheck", Text: m.text, Tag: m.op, TypeBudget: 5000000}
@@ -154,6 +172,11 @@ func staticCheck(prop string, salt int, families []string, nProgQ, nProgT, nMutQ
 			byReason[m.v.Reason]++
 		}
 		p, sig := judge(m)
+		if prop == "C06" && p == "C10" && strings.HasPrefix(m.v.Reason, "illformed-type:mode") {
+			// a written mode that contradicts the real mode of the type: the independence check
+			// is then made against a mode the channel does not have
+			p, sig = "C06", fmt.Sprintf("accepts a program in which a written mode contradicts the mode of the type it annotates: %s (%s)", m.v.Reason, m.op)
+		}
 		if p == prop {
 			c.Violation(sig, mwitness(m))
 			continue
@@ -176,6 +199,9 @@ func staticCheck(prop string, salt int, families []string, nProgQ, nProgT, nMutQ
 			c.PinnedWitness("K1", o.Res != nil && o.Res.TcOK, "accepts a program that breaks mode independence: independence@top (pinned witness)", map[string]interface{}{"program": string(b)})
 		}
 	}
+	if prop == "C07" && c07Extra != nil {
+		c07Extra(c, pool)
+	}
 	c.Extra["cases_by_mutation_operator"] = byOp
 	c.Extra["reference_reject_reasons"] = byReason
 	c.Extra["agreements(reference_accepts/grits)"] = agree
@@ -183,6 +209,8 @@ func staticCheck(prop string, salt int, families []string, nProgQ, nProgT, nMutQ
 	c.Extra["disagreements_or_deaths_left_to_other_properties"] = other
 	return c.Finish()
 }
+
+var c07Extra func(c *Check, pool *sup.Pool)
 
 func mixedOpt(i int) *gen.Opt {
 	if i%2 == 0 {
@@ -206,9 +234,94 @@ func checkC06() int {
 		})
 }
 
+// eqProbes: "payload and continuation types agree up to type equality" seen through the
+// typechecker: G2 environments extended with equal-by-construction and one-difference
+// variants; for pairs of names (A, B) the program  let probe(x : A) : B = fwd self x  (or the
+// same through a call of an identity function) must be accepted iff A and B are equal
+// (bisimilar fully moded trees, R3).
+func eqProbes(c *Check, pool *sup.Pool) {
+	r := rand.New(rand.NewSource(subSeed(c.Seed, 7070)))
+	nEnv, perEnv := c.pick(150, 2500), c.pick(10, 16)
+	type probe struct {
+		text string
+		a, b string
+		want bool
+		kind string
+	}
+	var ps []probe
+	for e := 0; e < nEnv; e++ {
+		defs, _ := rtypes.GenDefs(r, 0)
+		if an := rtypes.Analyze(defs); !an.WF {
+			e--
+			continue
+		}
+		defs = rtypes.EqVariants(r, defs)
+		an := rtypes.Analyze(defs)
+		if !an.WF {
+			e--
+			continue
+		}
+		text := rtypes.DefsText(defs)
+		for k := 0; k < perEnv; k++ {
+			a, b := defs[r.Intn(len(defs))].Name, defs[r.Intn(len(defs))].Name
+			if k%3 == 0 {
+				b = defs[len(defs)-1-r.Intn((len(defs)+1)/2)].Name // variants are appended last
+			}
+			want := vast.Equal(vast.Named(a, an.Modes[a]), vast.Named(b, an.Modes[b]), an.Trees)
+			var prog, kind string
+			switch r.Intn(3) {
+			case 0:
+				kind = "call-argument"
+				prog = fmt.Sprintf("%slet idp(x : %s) : %s = fwd self x\nlet probe(y : %s) : %s = idp(y)\n", text, a, a, b, a)
+			case 1:
+				kind = "cut-annotation"
+				prog = fmt.Sprintf("%slet probe(y : %s) : %s = z : %s <- new fwd self y; fwd self z\n", text, a, b, b)
+			default:
+				kind = "forward"
+				prog = fmt.Sprintf("%slet probe(x : %s) : %s = fwd self x\n", text, a, b)
+			}
+			ps = append(ps, probe{prog, a, b, want, kind})
+		}
+	}
+	jobs := make([]sup.Job, len(ps))
+	for i, p := range ps {
+		jobs[i] = sup.Job{Kind: "typecheck", Text: p.text, TypeBudget: 5000000}
+	}
+	byKind := map[string]int{}
+	for i, o := range pool.Run(jobs, nil) {
+		p := ps[i]
+		c.Evaluations++
+		if o.Died() {
+			continue // C08 / C09
+		}
+		if o.Res == nil {
+			c.Inconc("watchdog")
+			continue
+		}
+		if !o.Res.ParseOK {
+			c.Violation("a type-equality probe does not parse: "+errClass(o.Res.ParseErr), map[string]interface{}{"program": p.text})
+			continue
+		}
+		w := map[string]interface{}{"program": p.text, "types": []string{p.a, p.b}, "reference_equal": p.want, "grits_error": o.Res.TcErr, "probe": p.kind}
+		switch {
+		case o.Res.TcOK && !p.want:
+			c.Violation(fmt.Sprintf("accepts an ill-typed program: a %s between unequal types", p.kind), w)
+			continue
+		case !o.Res.TcOK && p.want:
+			c.Violation(fmt.Sprintf("rejects a well-typed program (%s between equal types): %s", p.kind, errClass(o.Res.TcErr)), w)
+			continue
+		}
+		byKind[fmt.Sprintf("%s/equal=%v", p.kind, p.want)]++
+		c.Nontrivial(p.text)
+	}
+	c.Extra["type_equality_probes"] = byKind
+}
+
 func checkC07() int {
+	c07Extra = eqProbes
+	defer func() { c07Extra = nil }()
 	return staticCheck("C07", 7, nil, 400, 2000, 14000, 120000,
-		"G1 programs (must be accepted) and single-edit mutants of every family (substructural, mode, typing, type definitions, polarities); oracle: Grits' verdict equals R1's in both directions; disagreements whose reference reason is substructural / mode / type-formation are left to C05 / C06 / C10; non-trivial = distinct mutant text judged by both", mixedOpt)
+		"G1 programs (must be accepted) and single-edit mutants of every family (substructural, mode, typing, type definitions, polarities); oracle: Grits' verdict equals R1's in both directions; plus type-equality probes (forward / call argument / cut annotation between two names of a G2 environment with equal and one-difference variants; accepted iff R3 finds the names equal); disagreements whose reference reason is substructural / mode / type-formation are left to C05 / C06 / C10; non-trivial = distinct mutant text judged by both", mixedOpt)
 }
 
 // ---------------------------------------------------------------- C09
